@@ -148,3 +148,113 @@ fn c07_available_width_0_2() {
     kani::cover!(true, "end of harness reached");
     std::mem::forget(data);
 }
+
+// ------------------------------------------------------------------------------------------------
+// Side-by-side numbering protocol (C05): one row of `paint_minus_and_plus_lines_side_by_side`
+// from an arbitrary counter state, with rendering cut away (superimpose / padding stubbed to
+// nothing) and a monitor in place of `format_and_paint_line_numbers` that records which panel was
+// asked to display which number.
+mod sbs_rows {
+    use super::super::*;
+    use crate::wrapping::WrapConfig;
+    use std::mem::MaybeUninit;
+    use std::ptr::addr_of_mut;
+
+    pub static mut LOG_SIDE: [u8; 8] = [0; 8];
+    pub static mut LOG_NUM: [Option<usize>; 8] = [None; 8];
+    pub static mut NLOG: usize = 0;
+
+    pub fn stub_format_and_paint<'a>(
+        _d: &'a LineNumbersData,
+        panel: Option<PanelSide>,
+        _styles: MinusPlus<Style>,
+        nums: MinusPlus<Option<usize>>,
+        _c: &'a Config,
+    ) -> Vec<ansi_term::ANSIGenericString<'a, str>> {
+        unsafe {
+            if NLOG < 8 {
+                match panel {
+                    Some(Left) => {
+                        LOG_SIDE[NLOG] = 1;
+                        LOG_NUM[NLOG] = nums[Minus];
+                    }
+                    Some(Right) => {
+                        LOG_SIDE[NLOG] = 2;
+                        LOG_NUM[NLOG] = nums[Plus];
+                    }
+                    None => {
+                        LOG_SIDE[NLOG] = 3;
+                    }
+                }
+                NLOG += 1;
+            }
+        }
+        Vec::new()
+    }
+    pub fn stub_superimpose(_a: &[(SyntectStyle, &str)], _b: &[(Style, &str)], _t: bool, _n: SyntectStyle) -> Vec<(Style, String)> {
+        Vec::new()
+    }
+    #[allow(clippy::too_many_arguments)]
+    pub fn stub_pad(_l: &mut String, _e: bool, _i: Option<usize>, _d: &[LineSections<'_, Style>], _h: Option<&[bool]>, _s: &State, _p: PanelSide, _b: BgShouldFill, _c: &Config) {}
+
+    pub fn cfg(c: &mut MaybeUninit<Config>) -> &Config {
+        let p = c.as_mut_ptr();
+        let plain = Style::new();
+        unsafe {
+            addr_of_mut!((*p).line_fill_method).write(BgFillMethod::Spaces);
+            addr_of_mut!((*p).wrap_config).write(WrapConfig {
+                left_symbol: String::new(),
+                right_symbol: String::new(),
+                right_prefix_symbol: String::new(),
+                use_wrap_right_permille: 0,
+                max_lines: 1,
+                inline_hint_syntect_style: SyntectStyle::default(),
+            });
+            addr_of_mut!((*p).keep_plus_minus_markers).write(false);
+            addr_of_mut!((*p).line_numbers_style_minusplus).write(MinusPlus::new(plain, plain));
+            addr_of_mut!((*p).line_numbers_zero_style).write(plain);
+            addr_of_mut!((*p).line_numbers_style_leftright).write(MinusPlus::new(plain, plain));
+            addr_of_mut!((*p).side_by_side).write(true);
+            addr_of_mut!((*p).true_color).write(true);
+            addr_of_mut!((*p).null_syntect_style).write(SyntectStyle::default());
+            addr_of_mut!((*p).minus_style).write(plain);
+            addr_of_mut!((*p).plus_style).write(plain);
+            &*p
+        }
+    }
+
+    #[kani::proof]
+    #[kani::unwind(4)]
+    #[kani::stub(crate::features::line_numbers::format_and_paint_line_numbers, stub_format_and_paint)]
+    #[kani::stub(crate::paint::superimpose_style_sections, stub_superimpose)]
+    #[kani::stub(pad_panel_line_to_width, stub_pad)]
+    fn c05_sbs_row_paired() {
+        let mut cfg_mem = MaybeUninit::<Config>::uninit();
+        let config = cfg(&mut cfg_mem);
+        let minus: Vec<(String, State)> = vec![(String::new(), State::HunkMinus(DiffType::Unified, None))];
+        let plus: Vec<(String, State)> = vec![(String::new(), State::HunkPlus(DiffType::Unified, None))];
+        let syn = LeftRight::new(vec![Vec::new()], vec![Vec::new()]);
+        let dif = LeftRight::new(vec![Vec::new()], vec![Vec::new()]);
+        let hom = LeftRight::new(vec![true], vec![true]);
+        let alignment = vec![(Some(0), Some(0))];
+        let (l, r): (usize, usize) = (kani::any(), kani::any());
+        kani::assume(l < usize::MAX - 4 && r < usize::MAX - 4);
+        let mut data = Some(LineNumbersData::default());
+        data.as_mut().unwrap().line_number = MinusPlus::new(l, r);
+        let mut out = String::new();
+        paint_minus_and_plus_lines_side_by_side(LeftRight::new(&minus, &plus), syn, dif, hom, alignment, &mut data, &mut out, config);
+        let d = data.as_ref().unwrap();
+        assert!(d.line_number[Left] == l + 1, "paired row advances the old-file counter by one");
+        assert!(d.line_number[Right] == r + 1, "paired row advances the new-file counter by one");
+        unsafe {
+            assert!(NLOG == 2, "two number fields per row");
+            assert!(LOG_SIDE[0] == 1 && LOG_NUM[0] == Some(l), "left panel shows the old-file number");
+            assert!(LOG_SIDE[1] == 2 && LOG_NUM[1] == Some(r), "right panel shows the new-file number");
+        }
+        kani::cover!(true, "end of harness reached");
+        std::mem::forget(data);
+        std::mem::forget(out);
+        std::mem::forget(minus);
+        std::mem::forget(plus);
+    }
+}
